@@ -108,6 +108,11 @@ def gen_cases(tier, seed):
         inside = kind in c08_gen.INSIDE
         cases.append(dict(id="c08_x%d" % i, prog=f(rng), feats=[("template:" if inside else "outside_hypotheses:") + kind], inputs=[c08_gen.gen_input(rng) for _ in range(ninp)],
                           origin="generated %s (%s)" % ("from a template" if inside else "outside the hypotheses", kind)))
+    npat = len(c08_gen.PATTERNS) if tier == "quick" else 6 * len(c08_gen.PATTERNS)
+    for i in range(npat):
+        kind, p, designed = c08_gen.gen_pattern(rng, i)
+        cases.append(dict(id="c08_p%d" % i, prog=p, feats=["pattern:" + kind], inputs=[designed] + [c08_gen.gen_input(rng) for _ in range(ninp - 1)],
+                          origin="generated call pattern around a disjunction (%s), designed input first" % kind))
     nneg = 6 if tier == "quick" else 40
     negs = []
     for i in range(nneg):
